@@ -1049,6 +1049,14 @@ func TestVerif(t *testing.T) {
 			}
 			totalPaths++
 			found := false
+			if p.typ.Kind() == reflect.Map && p.typ.Key().Kind() == reflect.String && (p.typ.Elem().Kind() == reflect.Ptr || p.typ.Elem().Kind() == reflect.Interface) {
+				// a map whose entries can be null (service::telemetry::resource: a null entry suppresses an attribute): an entry
+				// written with null is a written key like any other
+				np := c13Path{append(append([]string{}, p.keys...), "x-null"), p.typ.Elem()}
+				if _, _, loaded := c13Written(c, [][]string{np.keys}, []any{nil}); loaded {
+					do(c13Case{Kind: "written", Comp: c.kind + "/" + c.typ, Paths: []string{strings.Join(np.keys, "::")}, Values: []any{nil}})
+				}
+			}
 			if p.typ.Kind() == reflect.Map && p.typ.Key().Kind() == reflect.String {
 				// a map-typed setting (headers, ...): one entry is written
 				p = c13Path{append(append([]string{}, p.keys...), "x-verif"), p.typ.Elem()}
